@@ -311,7 +311,16 @@ func (f *File) AddChild(child Box, boxStartPos uint64) {
 				f.Mdat = box
 			}
 		} else {
-			currentFragment := f.LastSegment().LastFragment()
+			currSeg := f.LastSegment()
+			if currSeg == nil { // mdat before any moof or styp
+				f.AddMediaSegment(&MediaSegment{StartPos: boxStartPos})
+				currSeg = f.LastSegment()
+			}
+			currentFragment := currSeg.LastFragment()
+			if currentFragment == nil {
+				currSeg.AddFragment(&Fragment{StartPos: boxStartPos})
+				currentFragment = currSeg.LastFragment()
+			}
 			currentFragment.AddChild(box)
 		}
 	case *MfraBox:
@@ -360,6 +369,11 @@ func (f *File) startSegmentIfNeeded(b Box, boxStartPos uint64) {
 		segStart = true
 	default:
 		segStart = (segIdx == 0)
+	}
+	if segIdx == 0 {
+		// The first moof (or emsg) always needs a segment to go into, also when its position
+		// does not match what a sidx or tfra box says.
+		segStart = true
 	}
 	if segStart {
 		f.isFragmented = true
